@@ -57,13 +57,20 @@ TRUSTED_BASE = [
     "hand model lean/PdfVerif/Model/Process.lean of the caches and shared tables (tied by comparing predicted cache "
     "key sets, shared-table growth and decoded glyph text with the implementation after every operation)",
     "tools/translate/gen_c12.py (latin_enc.ENCODING + glyphlist entries -> Lean table), cross-checked against "
-    "EncodingDB's four tables on every run",
+    "EncodingDB's four tables on every run; PREDEFINED_COLORSPACE, FONT_METRICS digests, settings.STRICT and the defaults "
+    "of PDFTextState() -> Gen/ProcGlobals.lean, cross-checked against the live objects in every generated history",
+    "hand models lean/PdfVerif/Model/ProcGlobals.lean (explicit process-wide state, render_contents of text-state / "
+    "colour-space / q Q operators) and Model/ProcObjCache.lean (getobj over mutable containers), tied by running the "
+    "same generated call histories / caller actions on pdfminer and the compiled model after every call / action",
     "baseline = the same implementation in a fresh python process (one process per document; thorough tier: a "
     "second process in reverse option order)",
     "document generator/PDF writer/RC4 encryptor of the harness (tools/harness/props/c12_pool.py)",
 ]
 ASSUMPTIONS = [
     "single thread; generators are interleaved in one thread",
+    "user code that changes a container returned by PDFDocument.getobj in place is outside the extraction calls the "
+    "property quantifies over (getobj hands out the cached object itself: getobj_alias_cex, matched by the code); "
+    "settings.STRICT = True is exercised as an option value set for a whole call and restored, never changed by pdfminer",
     "layout analysis and the content interpreter are parameters of the Lean theorems (abstract per-page result); on "
     "the implementation they are covered by the fresh-process baselines (the pool contains exact distance ties "
     "between text boxes: rotated pages with tight margins; the id()-based tie-break found there is fixed)",
